@@ -409,7 +409,15 @@ func runCheck(chk *Check, tier, replay string, keep bool, only string) int {
 					cmd.Env = append(cmd.Env, fmt.Sprintf("MC_BUDGET_S=%d", budget))
 				}
 				cmd.Env = append(cmd.Env, j.b.u.Env...)
+				// hard wall limit: a harness that overruns its internal budget by far is an infrastructure error
+				hard := time.Duration(budget*3+900) * time.Second
+				timer := time.AfterFunc(hard, func() {
+					if cmd.Process != nil {
+						_ = cmd.Process.Kill()
+					}
+				})
 				out, err := cmd.CombinedOutput()
+				timer.Stop()
 				outs[i] = string(out)
 				rb, rerr := os.ReadFile(outf)
 				if rerr != nil {
